@@ -289,6 +289,7 @@ package rib
 //@   && (forall k in dom(A.NextHopGroup) :: A.NextHopGroup[k] != nil && A.NextHopGroup[k].Id != nil && *A.NextHopGroup[k].Id == k)
 //@   && (forall k in dom(A.NextHop) :: A.NextHop[k] != nil && A.NextHop[k].Index != nil && *A.NextHop[k].Index == k)
 //@ pred msgBase(m *spb.GetResponse) = allocated(m) && len(m.Entry) == 1 && allocated(m.Entry[0])
+//@ pred ribWFk(R *aft.RIB) = R != nil && R.Afts != nil && tablesNonNil(R.Afts) && keysOK(R.Afts)
 //@ pred ribKeysOK(r *RIB) = forall n in dom(r.niRIB) :: keysOK(r.niRIB[n].r.Afts)
 //@ pred msg_v4(m *spb.GetResponse, ni string) = allocated(m) && len(m.Entry) == 1 && allocated(m.Entry[0]) && m.Entry[0].NetworkInstance == ni && istype(m.Entry[0].Entry, *spb.AFTEntry_Ipv4) && allocated(payload(m.Entry[0].Entry)) && allocated(m.Entry[0].GetIpv4())
 //@ pred key_v4(m *spb.GetResponse) = m.Entry[0].GetIpv4().Prefix
@@ -925,9 +926,11 @@ package rib
 //@ ensures[ok] result1 == nil && result0 != nil && fresh(result0)
 //@ ensures[same-instances] dom(result0) == dom(r.niRIB)
 //@ ensures[fresh-copies] forall k in dom(result0) :: result0[k] != nil && fresh(result0[k])
+//@ ensures[wf-copies] (forall k in dom(r.niRIB) :: ribWFk(r.niRIB[k].r)) ==> (forall k in dom(result0) :: ribWFk(result0[k]))
 //@ loop 1 at "range r.niRIB" invariant (forall k in visited :: k in dom(r.niRIB) ==> k in dom(rib) && rib[k] != nil && fresh(rib[k]))
 //@ loop 1 invariant (forall k in dom(rib) :: k in visited && k in dom(r.niRIB)) && rib != nil && fresh(rib)
 //@ loop 1 invariant held(r.nrMu) == 1 && (nolocks(RIBHolder.mu))
+//@ loop 1 invariant (forall k in dom(r.niRIB) :: ribWFk(r.niRIB[k].r)) ==> (forall k in dom(rib) :: ribWFk(rib[k]))
 //@ assigns nothing
 //@ props C16 C11:lock C12:safety
 
